@@ -101,7 +101,8 @@ def run_check(pid, tier):
     if tier == "thorough":
         configs += list(getattr(mod, "THOROUGH_CONFIGS", ("headeronly", "nothread")))
     try:
-        if getattr(mod, "NEEDS_FACTS", True):
+        nf = getattr(mod, "NEEDS_FACTS", True)
+        if nf is True or (nf == "thorough" and tier == "thorough"):
             data = extract(tuple(configs))
         else:
             data = {"facts": {"lib": {"functions": {}, "records": {}, "globals": {}, "enums": {}}}, "meta": {"units": [], "configs": []}}
